@@ -68,7 +68,7 @@ pub fn run(ctx: &Ctx) {
         let k = i % 6; let j = jobs[(i / 6) as usize % jobs.len()]; let len = [12usize, 24][(i / 18) as usize]; let seed = 1000 + i;
         // guard: none of the answers before k yields an address starting with fff
         for q in 0..k { let e = stream_bytes(seed, q, len * 4 / 3); let key = key_of(&curve, &bip39::entropy_to_phrase(&e), "", &default_path(0)); if address_has_prefix(&eth::address_of_secret(&curve, &key), &[15, 15, 15]) { ctx.eval("vanity-failure:skipped-early-match"); return; } }
-        let cmd = Cmd::new(&["new", "-n", &len.to_string(), "--vanity-prefix", "0xfff", "-j", j]).timeout(60);
+        let cmd = Cmd::new(&["new", "-n", &len.to_string(), "--vanity-prefix", "0xfff", "-j", j]).timeout(300);
         let (r, reqs, full) = run_shimmed(&cmd, Build::Release, &Mode::Stream { seed, fail_at: Some(k) }, "vanity-failure-injection", i);
         let shape = format!("vanity,fail-at={},j={j}", if k == 0 { "first" } else { "later" });
         ctx.sample("vanity-failure-injection", || serde_json::json!({"command": trunc(&full.shown(), 300), "requests_seen": reqs.len()}));
@@ -86,7 +86,7 @@ pub fn run(ctx: &Ctx) {
     ctx.sweep("vanity-one-shot-failure", "vanity search for 0xfff with ONLY request k failing (k in {1, 2, 3, 5}) x -j {1, 2, 4}; the first 60 answers do not match: error exit, nothing printed", once.len() as u64, |i| {
         let (k, j) = once[i as usize]; let mut seed = 4000 + i * 1000;
         'pick: loop { for q in 0..60 { let e = stream_bytes(seed, q, 16); let key = key_of(&curve, &bip39::entropy_to_phrase(&e), "", &default_path(0)); if address_has_prefix(&eth::address_of_secret(&curve, &key), &[15, 15, 15]) { seed += 1; continue 'pick; } } break; }
-        let cmd = Cmd::new(&["new", "--vanity-prefix", "0xfff", "-j", j]).timeout(120);
+        let cmd = Cmd::new(&["new", "--vanity-prefix", "0xfff", "-j", j]).timeout(600);
         let (r, reqs, full) = run_shimmed(&cmd, Build::Release, &Mode::StreamFailOnce { seed, fail_at: k }, "vanity-one-shot-failure", i);
         let shape = format!("vanity,one-shot-failure,j={j}");
         ctx.sample("vanity-one-shot-failure", || serde_json::json!({"command": trunc(&full.shown(), 300), "requests_seen": reqs.len()}));
@@ -97,10 +97,11 @@ pub fn run(ctx: &Ctx) {
             let early = bip39::tokens_to_entropy(&toks).ok().map_or(false, |ent| carried_by(&ent, &before) && address_has_prefix(&eth::address_of_secret(&curve, &key_of(&curve, &line, "", &default_path(0))), &[15, 15, 15]));
             if early { ctx.eval("vanity-one-shot:matched-before-the-failure"); } else { ctx.violation(format!("{P}:new:{shape}:phrase-despite-failure"), format!("request {k} of the entropy source failed (and the printed phrase is not made of answers given before it) but the tool printed {:?} after {} requests", trunc(&r.line(), 120), reqs.len()), full.replay("vanity-one-shot-failure", i, Build::Release)) } }
     });
-    ctx.sweep("vanity-data-flow", "vanity search for each single hex digit x -j {0, 1} under a scripted stream: the printed phrase is the phrase of one of the answers the source gave", 32, |i| {
-        let digit = format!("0x{:x}", i % 16); let j = ["0", "1"][(i / 16) as usize]; let len = if i % 3 == 0 { 24 } else { 12 };
-        let cmd = Cmd::new(&["new", "-n", &len.to_string(), "--vanity-prefix", &digit, "-j", j]).timeout(120);
-        let (r, reqs, full) = run_shimmed(&cmd, Build::Release, &Mode::Stream { seed: 77 + i, fail_at: None }, "vanity-data-flow", i);
+    let lens5 = [12usize, 15, 18, 21, 24]; let jobs3 = ["0", "1", "2"]; let rounds = if ctx.quick() { 1u64 } else { 6 };
+    ctx.sweep("vanity-data-flow", "vanity search for each of the 16 single hex digits x every supported length x -j {0, 1, 2} (thorough: 6 entropy streams) under a scripted stream: every byte of the printed phrase's entropy is a byte the source returned", 16 * 5 * 3 * rounds, |i| {
+        let digit = format!("0x{:x}", i % 16); let len = lens5[(i / 16 % 5) as usize]; let j = jobs3[(i / 80 % 3) as usize];
+        let cmd = Cmd::new(&["new", "-n", &len.to_string(), "--vanity-prefix", &digit, "-j", j]).timeout(300);
+        let (r, reqs, full) = run_shimmed(&cmd, Build::Release, &Mode::Stream { seed: 77 + i * 7919, fail_at: None }, "vanity-data-flow", i);
         let shape = format!("vanity-data-flow,j={j},len={len}"); let replay = full.replay("vanity-data-flow", i, Build::Release);
         ctx.sample("vanity-data-flow", || serde_json::json!({"command": trunc(&full.shown(), 300), "requests_seen": reqs.len()}));
         if r.crashed() { ctx.eval(format!("{shape}:{}", r.crash_kind())); ctx.panic_violation(format!("{P}:new:{shape}:{}", r.crash_kind()), r.describe(), replay); return; }
